@@ -157,8 +157,8 @@ def judge_case(ctx, res):
             ctx.fail_harness("observe_all failed: %s" % ev["exc"]["type"])
             return
         obs = ev["ret"]
-        tracks = obs.get("tracks", {})
-        for h, x in obs.get("track_handles", {}).items():
+        tracks = obs.get("tracks") or {}
+        for h, x in (obs.get("track_handles") or {}).items():
             handles[h] = str(x["id"])
         ctx.bump("observations")
         src = index[k - 1]
@@ -252,8 +252,8 @@ def judge_case(ctx, res):
         ctx.nontriv({"schema": schema, "ops": wit["ops"]})
 
 
-def make_case(cid, rng, schema, n_tracks, n_ops):
-    ops, metas = GH.gen_setter_history(rng, schema, n_tracks, n_ops)
+def make_case(cid, rng, schema, n_tracks, n_ops, first_id=None):
+    ops, metas = GH.gen_setter_history(rng, schema, n_tracks, n_ops, first_id=first_id)
     full, index = interleave(ops)
     return {"id": cid, "schema": schema, "ops": full, "_metas": metas, "_index": index}
 
@@ -264,7 +264,11 @@ def run(ctx):
     n = 0
     for schema in ALL_SCHEMAS:
         for k in range(per):
-            cases.append(make_case("c%d" % n, ctx.rng, schema, 2 + (k % 2), 20 + (k % 3) * 10))
+            # one history in six runs with the ids of a long-lived library (around 2^31 / 2^32 / 2^53)
+            first = GH.FIRST_IDS[(k // 6) % len(GH.FIRST_IDS)] if k % 6 == 4 else None
+            if first:
+                ctx.bump_in("histories_with_first_id", str(first))
+            cases.append(make_case("c%d" % n, ctx.rng, schema, 2 + (k % 2), 20 + (k % 3) * 10, first))
             n += 1
         # many tracks side by side (row ids with more than one digit): the frame condition is then judged over 13-40 bystanders
         for k in range(1 if ctx.tier == "quick" else 12):
